@@ -43,7 +43,7 @@ def fields_equal(got, exp):
         explain("field sets differ: %r vs %r", sorted(got), sorted(exp))
         return False
     for k in exp:
-        if not same(got[k], exp[k], "field %s" % k):
+        if not same(got[k], exp[k], k):
             return False
     return True
 
